@@ -70,7 +70,9 @@ class _RawIn(io.RawIOBase):
         p = self.proc
         k = p.world.kernel
         data = bytes(b)
-        if k.is_dead():
+        if k.is_dead() or k.me_task() is not p.owner:
+            # dead task, finished run, or a finaliser running in some other task's
+            # thread: never a simulated side effect (and never a tape draw)
             return len(data)
         if not data:
             return 0
@@ -106,7 +108,7 @@ class _RawOut(io.RawIOBase):
     def readinto(self, b):
         p = self.proc
         k = p.world.kernel
-        if k.is_dead():
+        if k.is_dead() or k.me_task() is not p.owner:
             return 0
         if p.eio_at_read is not None and p.n_reads + 1 == p.eio_at_read:
             p.n_reads += 1
@@ -146,8 +148,16 @@ class SimPopen(object):
         self.world = world
         self.args = list(args)
         self.name = "%s#%d" % (self.args[0], len(world.procs))
-        self.profile = dict(world.profiles.get(self.args[1] if len(self.args) > 1 else self.args[0], {}))
-        self.owner = world.kernel.me()
+        key = self.args[1] if len(self.args) > 1 else self.args[0]
+        self.key = key
+        prof = world.profiles.get(key, {})
+        if isinstance(prof, list):
+            # one profile per incarnation: the k-th process started for this member
+            nth = sum(1 for p in world.procs if p.key == key)
+            prof = prof[min(nth, len(prof) - 1)] if prof else {}
+        self.profile = dict(prof)
+        self.incarnation = sum(1 for p in world.procs if p.key == key)
+        self.owner = world.kernel.me_task()
         self.solver = RefSolver(tape=world.tape, profile=self.profile)
         self.out = []            # [(available_at, bytes)]
         self.mid_reply = False
